@@ -13,12 +13,13 @@ INVARIANTS = ["TypeOK", "C46_QuiescentResolved", "C46_NoOrphanRequest", "C02_Onl
 
 def cfg(readers=1, numsegs=2, inst="P_spread3", order="Order3", full=True, clear=True, maxout=10, validate="AllChecks",
         ranges="R_all2", dmg=0, dvals=("forged",), faulty=0, fmodes=("dyhb",), badsegs=0, absent=0, liars=0, tamper=0,
-        liveness=True, invariants=INVARIANTS, k=2):
+        liveness=True, invariants=INVARIANTS, k=2, stop="none"):
     def s(xs):
         return "{" + ", ".join('"%s"' % x for x in xs) + "}"
     consts = dict(Readers=s(["r%d" % i for i in range(1, readers + 1)]), NumSegs=numsegs, K=k, FullLayer=str(full).upper(),
                   ClearOnFailure=str(clear).upper(), MaxOutstanding=maxout, MaxDamage=dmg, DamageVals=s(dvals),
-                  MaxFaulty=faulty, FaultModes=s(fmodes), MaxBadSegs=badsegs, MaxAbsent=absent, MaxLiars=liars, MaxTamperC=tamper)
+                  MaxFaulty=faulty, FaultModes=s(fmodes), MaxBadSegs=badsegs, MaxAbsent=absent, MaxLiars=liars, MaxTamperC=tamper,
+                  StopMode='"%s"' % stop)
     subst = dict(Inst=inst, ServerOrder=order, Validate=validate, ReadRanges=ranges, Advs="MCAdvs")
     txt = "SPECIFICATION Spec\nCONSTANTS\n"
     for k_, v in consts.items():
